@@ -44,6 +44,9 @@ ASSUMPTIONS = [
     "after a short packet, a ZLP, a STALL or wLength bytes (USB 2.0 8.5.3); value/length are stable during a request",
     "the packet generator side behaves like USBDataPacketGenerator: ready only while a started packet's payload "
     "is being sent, and it is idle again before the next IN token",
+    "sequences of requests (*_requests_exact): the next start pulse comes after the previous response is over "
+    "(window longer than 4 cycles and every byte of a data packet accepted; for the distributed handler and the mux "
+    "one further cycle, the generator's DONE state) - `Complete` in Lemmas/C09Seq.lean",
     "descriptor collections satisfy the constructors' preconditions: non-empty, distinct (type,index), every "
     "descriptor 1..2047 bytes (the block handler needs a longest descriptor of >= 2 bytes), ROM below 64 KiB",
     "runtime descriptors are opaque generators supplied by the application; the repo's USBDescriptorStreamGenerator "
